@@ -9,6 +9,8 @@ DEFAULT_WEIGHTS = {"step": 6, "wait": 2, "callback": 1, "wfc": 1, "invoke": 1, "
                    "child": 2, "parallel": 2, "map": 1, "log": 1, "pause": 0}
 
 USER_ERRS = ["ValueError", "RuntimeError", "UserErrA", "UserErrB", "TimeoutError"]
+#: SDK exception classes that user code may raise itself (e.g. from a wait_for_condition check function)
+SDK_ERRS = ["ExecutionError", "ValidationError", "InvalidStateError"]
 
 
 def pick(rng, weighted):
@@ -259,8 +261,14 @@ class Gen:
                 for i_ in range(i0 + 1, n - 1 if rng.random() < 0.5 else i0 + 2):
                     states[i_] = states[i0]
             att = [{"do": "ret", "v": s} for s in states]
+            sdk_cls = None
             if rng.random() < prof.get("check_fail_p", 0.15):
                 att[rng.randrange(n)] = {"do": "raise", "cls": rng.choice(USER_ERRS), "msg": "check failed"}
+                if rng.random() < 0.3:
+                    sdk_cls = rng.choice(SDK_ERRS)  # "all exception classes": the check raises one of the SDK's own
+                    for a_ in att:
+                        if a_["do"] == "raise":
+                            a_["cls"] = sdk_cls
             for a in att:
                 b = rng.choice(prof.get("blocks", [0, 0, 0, 0.05, 0.5, 2.0]))
                 if b:
@@ -274,6 +282,11 @@ class Gen:
             self.custom_serdes(st)
             if rng.random() < 0.3:
                 st["ctor"] = True  # decisions built with the dataclass constructor instead of the factory methods
+            if sdk_cls is not None:
+                t_ = self.wrap_try(st, 0.9)
+                if t_ is not st:
+                    t_["catch"] = t_["catch"] + [sdk_cls]
+                return t_
             return self.wrap_try(st, 0.8)
         if k == "child":
             st = {"op": "child", "body": self.seq(depth + 1, in_branch, lo=1, hi=3)}
